@@ -432,3 +432,80 @@ fn c03_win_sound() {
         WindowSize::Any => assert!(false),
     }
 }
+
+// ---------------------------------------------------------------- IP-header quirks (process_tcp_ipv4 / ipv6)
+// visit_tcp is replaced by a stub that echoes what process_tcp_ipv4/6 hands to it, so the
+// obligation is about the IP-level extraction alone (visit_tcp has its own obligations).
+fn echo_visit(
+    _t: &mut TtlCache<ConnectionKey, TcpTimestamp>, _tcp: &TcpPacket, version: IpVersion, ittl: Ttl, ip_hdr: u8, olen: u8,
+    quirks: Vec<Quirk>, _s: IpAddr, _d: IpAddr,
+) -> Result<ObservableTCPPackage, HuginnNetTcpError> {
+    Ok(ObservableTCPPackage {
+        tcp_request: Some(ObservableTcp { matching: huginn_net_db::observable_signals::TcpObservation {
+            version, ittl, olen, mss: Some(ip_hdr as u16), wsize: WindowSize::Any, wscale: None, olayout: Vec::new(), quirks, pclass: PayloadSize::Zero } }),
+        tcp_response: None, mtu: None, client_uptime: None, server_uptime: None,
+    })
+}
+#[kani::proof]
+#[kani::unwind(8)]
+#[kani::stub(visit_tcp, echo_visit)]
+fn c03_quirks_ipv4_header() {
+    let mut p = [0u8; 40];
+    p[0] = 0x45;
+    p[1] = kani::any();            // DSCP / ECN
+    p[2] = 0; p[3] = 40;           // total length
+    p[4] = kani::any(); p[5] = kani::any(); // identification
+    p[6] = kani::any(); p[7] = kani::any(); // flags + fragment offset
+    p[8] = kani::any();            // TTL
+    p[9] = 6;
+    p[32] = 0x50;
+    let ip = Ipv4Packet::new(&p).unwrap();
+    let mut cache: TtlCache<ConnectionKey, TcpTimestamp> = TtlCache::new(2);
+    let r = process_tcp_ipv4(&ip, &mut cache);
+    let frag_off = (((p[6] & 0x1f) as u16) << 8) | p[7] as u16;
+    let mf = p[6] & 0x20 != 0;
+    assert!(r.is_ok() == (frag_off == 0 && !mf)); // fragments are not analysed
+    if let Ok(pkg) = r {
+        let m = pkg.tcp_request.unwrap().matching;
+        let df = p[6] & 0x40 != 0;
+        let mbz = p[6] & 0x80 != 0;
+        let id0 = p[4] == 0 && p[5] == 0;
+        let ecn = p[1] & 0x03 != 0;
+        // expected quirks in the fixed order ecn, 0+, df, id+ / id-
+        let mut exp = [0u8; 4];
+        let mut n = 0;
+        if ecn { exp[n] = 3; n += 1; }
+        if mbz { exp[n] = 4; n += 1; }
+        if df { exp[n] = 0; n += 1; if !id0 { exp[n] = 1; n += 1; } } else if id0 { exp[n] = 2; n += 1; }
+        assert!(m.quirks.len() == n);
+        let mut i = 0;
+        while i < n { assert!(quirk_code(&m.quirks[i]) == exp[i]); i += 1; }
+        assert!(m.version == IpVersion::V4 && m.olen == 0 && m.ittl == calculate_ttl(p[8]));
+        assert!(m.mss == Some(5)); // header length handed on in 32-bit words
+    }
+}
+#[kani::proof]
+#[kani::unwind(8)]
+#[kani::stub(visit_tcp, echo_visit)]
+fn c03_quirks_ipv6_header() {
+    let mut p = [0u8; 60];
+    p[0] = 0x60 | (kani::any::<u8>() & 0x0f);
+    p[1] = kani::any(); p[2] = kani::any(); p[3] = kani::any(); // traffic class / flow label
+    p[4] = 0; p[5] = 20;
+    p[6] = 6;
+    p[7] = kani::any();            // hop limit
+    p[52] = 0x50;
+    let ip = Ipv6Packet::new(&p).unwrap();
+    let mut cache: TtlCache<ConnectionKey, TcpTimestamp> = TtlCache::new(2);
+    let m = process_tcp_ipv6(&ip, &mut cache).unwrap().tcp_request.unwrap().matching;
+    let tc = ((p[0] & 0x0f) << 4) | (p[1] >> 4);
+    let flow0 = (p[1] & 0x0f) == 0 && p[2] == 0 && p[3] == 0;
+    let mut exp = [0u8; 2];
+    let mut n = 0;
+    if !flow0 { exp[n] = 5; n += 1; }
+    if tc & 0x03 != 0 { exp[n] = 3; n += 1; }
+    assert!(m.quirks.len() == n);
+    let mut i = 0;
+    while i < n { assert!(quirk_code(&m.quirks[i]) == exp[i]); i += 1; }
+    assert!(m.version == IpVersion::V6 && m.olen == 0 && m.ittl == calculate_ttl(p[7]) && m.mss == Some(40));
+}
